@@ -1021,6 +1021,14 @@ def _find_proc(dump, wi, pid):
     return None
 
 
+def _was_forgotten(before, after, pid, t):
+    """A target that is awaited again by the Await action ending the slice: it was forgotten in
+    between iff its entry held a result before (the new entry is None either way, so forgetting it
+    first is unobservable; report it forgotten only when a stored result disappeared)."""
+    b = dict((k, v) for k, v in before[pid]["awaiting"]).get(t, "-") if pid in before else "-"
+    return b != "-"
+
+
 def trace_to_replay(trace):
     """-> (driver input line, expected: list of normalised dumps or None per step, stamps, n_actions).
     Raises Unmodelled for traces the model does not cover (effects, dead components)."""
@@ -1063,7 +1071,7 @@ def trace_to_replay(trace):
             af = _fields(after_workers[wi][3:])
             ex = a["exec"]
             pid = None if (not ex or ex[0] == "idle") else _fields(ex)["pid"][0]
-            did = "(did (taken) - - 0 - 0)"
+            did = "(did (taken) - (forget) - 0 - 0)"
             sent_evts = [it[2] for it in a["items"] if it[0] == "send-evt"]
             if pid is not None:
                 pre = [unparse(m) for m in before[pid]["mailbox"]] if pid in before else []
@@ -1103,7 +1111,16 @@ def trace_to_replay(trace):
                     fin = "(%s %s)" % (r[0], r[1])
                 heapy = "1" if (res != "-" and "(b " in unparse(res)) else "0"
                 park = "1" if (pid in af["selecting"] and not action.startswith("(await") and fin == "-") else "0"
-                did = "(did (taken %s) %s %s %s %s %s)" % (" ".join(taken), _sel_text(after[pid]["select"][0]), action, park, fin, heapy)
+                # complete_select forgets the process sources of a completed select: keys of `awaiting`
+                # that disappeared during the slice (an Await action of the same slice re-inserts its targets afterwards)
+                keys_before = [t for t, _ in before[pid]["awaiting"]] if pid in before else []
+                for it in a["items"]:
+                    if it[0] == "recv-cmd" and it[2][0] in ("SpawnProcess", "StartProcess") and it[2][1] == pid:
+                        keys_before = []
+                keys_after = set(t for t, _ in after[pid]["awaiting"])
+                await_targets = set(action[1:-1].split()[1:]) if action.startswith("(await") else set()
+                forget = [t for t in keys_before if t not in keys_after or t in await_targets and _was_forgotten(before, after, pid, t)]
+                did = "(did (taken %s) %s (forget %s) %s %s %s %s)" % (" ".join(taken), _sel_text(after[pid]["select"][0]), " ".join(forget), action, park, fin, heapy)
             allp = sorted(set(list(before) + list(after)), key=int)
             q_after = list(af["queue"])
             completed = []
